@@ -132,3 +132,10 @@ package resolver
 // members are selected for the screen by case-insensitive comparison and in no other way
 //@   ensures [members-are-selected-case-insensitively] did(call hasNullEntry #1) ==> did(call strings.EqualFold #1) && ret(call strings.EqualFold #1)
 //@   ensures [success-only-through-go-did] isNilIface(result) ==> did(call json.Unmarshal #2) && isNilIface(ret(call json.Unmarshal #2))
+
+// ---- C18 / C09 / C10: what "deactivated" means - a document without controllers and without capability invocation
+// keys (nobody can change it any more). Every caller that decides on deactivation goes through this function. ----
+//@ func IsDeactivated
+//@   prop C18 C09 C10
+//@   pure heap
+//@   ensures [no-controller-and-no-invocation-key] result <==> len(document.Controller) == 0 && len(document.CapabilityInvocation) == 0
